@@ -1,12 +1,12 @@
 ---- MODULE FactorDbg ----
 EXTENDS FactorTrace
 r == TraceLog[atoi(IOEnv.REC)]
-t == r.t  n == r.n  d == n - 1
-c == ShrtCtx(r)
-ASSUME PrintT(<<"recompose", NearRows(c.SHRT, c.A, c.tolA)>>)
-ASSUME PrintT(<<"rot", IsRotation(Lin(c.R, d), KE(t))>>)
-ASSUME PrintT(<<"eqs", r.s2 = r.s /\ r.s3 = r.s /\ r.h3 = r.h /\ r.s4 = r.s /\ r.h4 = r.h>>)
-ASSUME PrintT(<<"rem", NearRows(c.rem, c.RT, c.tolRT), IsRotation(Lin(c.rem, d), KE(t)), r.sans2 = r.rem /\ r.removed2 = r.rem>>)
-ASSUME PrintT(<<"sans", NearRows(c.sans, c.HRT, c.tolHRT), r.removed = r.sans>>)
-ASSUME PrintT(<<"layouts", ExactMat(t, r.S, SetScale(n, Nums(t, r.s)), n), ExactMat(t, r.T, SetTranslation(n, Nums(t, r.tr)), n), ExactMat(t, r.H, SetShear33_1(Nums(t, r.h)[1]), n)>>)
+c == [A |-> Sq(r.t, r.m, 4), S |-> Sq(r.t, r.S, 4), H |-> Sq(r.t, r.H, 4), R |-> Sq(r.t, r.R, 4), T |-> Sq(r.t, r.T, 4), Re |-> Sq(r.t, r.Re, 4)]
+t == r.t
+P1 == MV(c.S, MV(c.H, MV(c.R, c.T)))
+P2 == MV(c.S, MV(c.H, MV(c.Re, c.T)))
+tl == RowTol(t, c.A)
+ASSUME PrintT(<<"flags", r.ok, r.oke, r.s5 = r.s, r.h5 = r.h, r.order>>)
+ASSUME PrintT(<<"P1", NearRows(P1, c.A, tl), IsRotation(Lin(c.R, 3), KE(t))>>)
+ASSUME PrintT(<<"P2", NearRows(P2, c.A, tl), IsRotation(Lin(c.Re, 3), KE(t))>>)
 ====
